@@ -151,6 +151,51 @@ func orderProgram(r *mon.Rand) (src string, tags []string) {
 	tick := 0
 	tk := func() string { tick++; return fmt.Sprintf("tick(%d)", tick) }
 	nm := 2 + r.Intn(11)
+	// one from-import statement binding 2..6 names (with and without aliases), in a random order
+	if r.Chance(1, 2) {
+		mod := mon.Pick(r, []struct {
+			name  string
+			names []string
+			use   string
+		}{
+			{"math", []string{"abs", "sqrt", "min", "max", "floor", "ceil", "pow", "round"}, "(4.0)"},
+			{"strings", []string{"to_upper", "to_lower", "trim_space", "fields", "repeat", "contains", "has_prefix"}, ""},
+			{"strconv", []string{"atoi", "parse_bool", "parse_float", "parse_int"}, ""},
+		})
+		p := r.Perm(len(mod.names))
+		k := 2 + r.Intn(5)
+		if k > len(p) {
+			k = len(p)
+		}
+		var parts, bound []string
+		for _, j := range p[:k] {
+			if r.Chance(1, 3) {
+				alias := fmt.Sprintf("al%d", j)
+				parts = append(parts, mod.names[j]+" as "+alias)
+				bound = append(bound, alias)
+			} else {
+				parts = append(parts, mod.names[j])
+				bound = append(bound, mod.names[j])
+			}
+		}
+		if r.Bool() {
+			fmt.Fprintf(&b, "from %s import %s\n", mod.name, strings.Join(parts, ", "))
+		} else {
+			fmt.Fprintf(&b, "from %s import (\n  %s,\n)\n", mod.name, strings.Join(parts, ",\n  "))
+		}
+		fmt.Fprintf(&b, "print([%s])\n", strings.Join(bound, ", "))
+		tags = append(tags, fmt.Sprintf("from-import%d", k))
+	}
+	// a set whose members are byte_slices (hashable through their string value)
+	if r.Chance(1, 3) {
+		nb := 2 + r.Intn(6)
+		var items []string
+		for i := 0; i < nb; i++ {
+			items = append(items, fmt.Sprintf("byte_slice(%q)", mon.Pick(r, keyPool)))
+		}
+		fmt.Fprintf(&b, "bset := {%s}\nprint(bset, list(bset))\nfor bi, bx := range bset { print(bi, bx) }\nprint(sorted(list(bset)), string(bset), bset.union({byte_slice(\"zz\")}))\n", strings.Join(items, ", "))
+		tags = append(tags, fmt.Sprintf("byte-slice-set%d", nb))
+	}
 	// map literal with side-effecting values and (sometimes) duplicate keys
 	b.WriteString("m := {")
 	for i := 0; i < nm; i++ {
